@@ -142,9 +142,11 @@ def regen_consts():
     return True, ""
 
 
-def coq_build():
-    """Full .vo build (never -vos/-vok) of everything but Props/, make -k so a
-    broken file only takes down what depends on it.  Returns (log, failed)."""
+def coq_build(pid=None):
+    """Full .vo build (never -vos/-vok), make -k so a broken file only takes
+    down what depends on it.  pid=None builds everything but Props/; with a
+    pid only what Props/<pid>.v and Run/<pid>.v need (make follows coqdep).
+    Returns (rc, log, failed)."""
     proj = "-R . Mixin\n" + "\n".join(coq_files()) + "\n"
     pj = os.path.join(COQ, "_CoqProject")
     if not os.path.exists(pj) or open(pj).read() != proj:
@@ -152,7 +154,11 @@ def coq_build():
         sh(["coq_makefile", "-f", "_CoqProject", "-o", "Makefile.coq"], cwd=COQ)
     if not os.path.exists(os.path.join(COQ, "Makefile.coq")):
         sh(["coq_makefile", "-f", "_CoqProject", "-o", "Makefile.coq"], cwd=COQ)
-    rc, log = sh(["timeout", "3000", "make", "-k", "-j16", "-f", "Makefile.coq"], cwd=COQ)
+    targets = []
+    if pid is not None:
+        want = set(closure(pid)) | set(closure_of(os.path.join("Run", pid + ".v")))
+        targets = sorted(f + "o" for f in want if not f.startswith("Props/") and os.path.exists(os.path.join(COQ, f)))
+    rc, log = sh(["timeout", "3000", "make", "-k", "-j16", "-f", "Makefile.coq"] + targets, cwd=COQ)
     failed = []
     for m in re.finditer(r'File "\./([^"]+)", line (\d+), characters[^\n]*\n((?:.*\n){0,12}?)(?=File |make|COQC|$)', log):
         f, line, body = m.group(1), int(m.group(2)), m.group(3)
@@ -176,7 +182,11 @@ def enclosing(path, line):
 
 def closure(pid):
     """Source files Props/<pid>.v depends on (transitively), by its Require lines."""
-    seen, todo = set(), [os.path.join("Props", pid + ".v")]
+    return closure_of(os.path.join("Props", pid + ".v"))
+
+
+def closure_of(start):
+    seen, todo = set(), [start]
     while todo:
         f = todo.pop()
         if f in seen:
@@ -288,7 +298,7 @@ def eval_cases(pid, outdir, shard=300):
         return k, [int(x) for x in re.findall(r"(\d+)%N", m.group(1))], out
 
     bad, errlog = [], ""
-    with ThreadPoolExecutor(max_workers=14) as ex:
+    with ThreadPoolExecutor(max_workers=int(os.environ.get('VERIF_JOBS', '8'))) as ex:
         for k, idx, out in ex.map(one, range(len(shards))):
             if idx is None:
                 errlog += "shard %d failed:\n%s\n" % (k, out[-1500:])
@@ -379,7 +389,7 @@ def main(argv):
         okc, clog = regen_consts()
         if not okc:
             notes.append(clog[-2000:])
-        rc_make, mlog, failed = coq_build()
+        rc_make, mlog, failed = coq_build(pid)
         pr = props(pid)
     gate_bad = gate(pid)
     theorems = pr["theorems"]
